@@ -40,6 +40,7 @@ LAYOUT_UNIVERSE = Universe({
     "pl": "/vws/plugsrc/plug.py",
     "tp": "/vws/venv/lib/python3.11/site-packages/tp/plugin.py",
     "tp2": "/vws/venv/lib/python3.11/site-packages/tp2/plugin.py",
+    "tpi": "/vws/R/.venv/lib/python3.11/site-packages/tpi/plugin.py",
 })
 
 
